@@ -218,6 +218,10 @@ theorem repo_skeleton_entry_ok : entryOkB Gen.skeletons Gen.skRel Gen.skEntryR =
 theorem repo_rows_indexed : rowsIndexedB (allRows Gen.skeletons Gen.skRel Gen.skEntryR) Gen.skRowsT = true :=
   checkAll_rows repo_skeleton_check
 
+/-- only function literals and functions with an unexported name start from a non-empty entry lockset: whatever can be
+    entered from another package is analysed from ∅ -/
+theorem repo_entry_roots_ok : entryRootsOkB Gen.skeletonNames Gen.skEntryR = true := by decide +kernel
+
 /-- every table row outside the two listed sets is justified by the analysis -/
 theorem repo_table_justified :
     Gen.accesses.all (fun a => justT Gen.skRowsT Gen.tokenIds a || Gen.exemptOcc.contains a.site ||
